@@ -347,8 +347,10 @@ func verifySignature(tokenString string, publicKeyPEM []byte, alg string) error 
 	case *ecdsa.PublicKey:
 		if strings.HasPrefix(alg, "ES") {
 			var r, s big.Int
+			// JWS (RFC 7518 3.4): r||s, each exactly ceil(bits/8) bytes for the key's curve.
+			// Any other length (zero-padded or zero-stripped halves) is another byte string.
 			sigLen := len(signature)
-			if sigLen%2 != 0 {
+			if sigLen != 2*((pubKey.Curve.Params().BitSize+7)/8) {
 				return fmt.Errorf("invalid ECDSA signature length")
 			}
 			r.SetBytes(signature[:sigLen/2])
